@@ -5,7 +5,7 @@ V='/verif'
 claims = {
  'C01': ('proof', "Every assertion of the oracle is decided by the SMT solver (unsat) for all 64-bit heights, all instants in range, all chain-id equalities and all six type-level outcomes on every path of the real Verify/verify SSA; no loop, hence no unrolling bound.", "Instantiation H=zzH only; clock constant during one call; instants within +-2^61 ns. Trusted: go/ssa, gse executor and its time/errors/fmt intrinsics, oracle in props/C01, z3."),
  'C02': ('model_checking', "Bounded: every input sequence of length <= N (3 quick, 5 thorough) incl. nil entries and aliases, arbitrary per-pair type-level verdicts; the VerifyRange loop is unrolled exactly (concrete slice lengths), each path decided for all heights/times by the solver.", "Ranges longer than N are outside the claim. Same trusted base as C01."),
- 'C04': ('model_checking', "Bounded histories (Append of any sub-run / Sync / restart / DeleteRange, after an optional flushed prelude) over a K-chain on the real Store, keytransform, namespace and 2Q-LRU code, four covering store configurations; the public API is compared with a reference model after a final Sync.", "One run-to-block schedule per history (interleavings are C12/C17). K<=3,L<=2 quick; K<=3,L<=3 thorough (BOUNDS.md). Datastore = zzMemDS contract (atomic writes/commits)."),
+ 'C04': ('model_checking', "Bounded histories (Append of any sub-run / Sync / restart / DeleteRange, after an optional flushed prelude) over a K-chain on the real Store, keytransform, namespace and 2Q-LRU code, four covering store configurations; the public API is compared with a reference model after a final Sync.", "One run-to-block schedule per history (interleavings are C12/C17). K<=3,L<=2 in both tiers (BOUNDS.md). Datastore = zzMemDS contract (atomic writes/commits)."),
  'C08': ('model_checking', "Every flushed/pending split of a K-chain x every (from,to) pair around the chain ends x four store configurations, then continuation appends, flush and restart on the real Store; plus unconstrained 64-bit (from,to) for the rejection rule.", "Sequential delete path only (deleteParallel outside); K<=3 in both tiers (BOUNDS.md); datastore contract zzMemDS."),
  'C09': ('model_checking', "Quorum lemma decided for every n in [0,2^31) (proof-level unit); Head() explored for <=3 (quick) / 5 (thorough) peers, every assignment of answers over D distinct headers with unconstrained 64-bit heights and arbitrary verdicts against the trusted head, tracker empty or not; arrival orders covered by peer symmetry.", "Network cut at sendMessage (stub); hanging peers and cancellation not in this check; libp2p not encoded."),
  'C10': ('model_checking', "handleRangeRequest/handleHeadRequest/handleRequestByHash executed for unconstrained 64-bit origin, amount, tail, head (no loop) against a logging contract store: read bounds, clamp rule, limit, head and hash answers decided by the solver.", "libp2p streams, their deadlines and resets are environment; request bytes come from a catalogue of frames, not from an arbitrary symbolic buffer."),
